@@ -28,8 +28,10 @@ Bindings that change (``dyn``, 30% of the runs): the operations of a writer sit 
 the very same statements are evaluated again, and the Python variable whose name equals a state domain is bound, bound
 to another object and deleted WHILE the writers run: the global one (``light``) through two helper functions any writer
 may call (another task changes the binding between two evaluations of a statement), the local one (``switch``) by
-plain assignment / ``del`` inside the writer.  Whether ``light.l3`` / ``switch.k4`` is the attribute of the Python
-object or the state variable is decided by the oracle from the binding at the instant of each evaluation.
+plain assignment / ``del`` inside the writer.  In 40% of these runs one writer function is called a second time,
+possibly while its first invocation still runs: two tasks evaluate the same statements, each with its own local
+variables and captured snapshots.  Whether ``light.l3`` / ``switch.k4`` is the attribute of the Python object or the
+state variable is decided by the oracle from the binding at the instant of each evaluation.
 """
 
 from __future__ import annotations
@@ -55,7 +57,8 @@ RULE = (
     "are the body of a loop of 1-3 rounds (same statements evaluated again) and the global / local Python variable named "
     "like a state domain is bound, re-bound and deleted by the writers themselves between those evaluations (global: by "
     "any writer, through helper functions; local: in the writer), with plain read / assign / del / attribute read / "
-    "attribute assign by dotted name on those names; "
+    "attribute assign by dotted name on those names, and in 40% of those runs one writer function is invoked a second "
+    "time (overlapping or later: same statements, separate local variables); "
     "optional native services of the same names, optional @state_trigger on the busiest names; "
     "an external writer and stalls on the virtual clock; writer start and per-operation timing: same pass, few "
     "passes, 0.25 s grid); distinct = scenario digest; non-trivial = at least 2 script writes that changed the "
